@@ -90,6 +90,8 @@ Definition ok3 {A} (s : list Z) (r : res (A * list Z * Z)) : Prop :=
   match r with Ok x => suffix (snd (fst x)) s | Unsupported _ => True | _ => False end.
 (* never Panic (whatever else) *)
 Definition np {A} (r : res A) : Prop := match r with Panic _ => False | _ => True end.
+(* never OutOfFuel *)
+Definition nf {A} (r : res A) : Prop := match r with OutOfFuel => False | _ => True end.
 (* ... that may also write to the log: the other fields of the lexer state are unchanged *)
 Definition same_tbl (ls ls' : lexstate) : Prop := lx_rhythm ls' = lx_rhythm ls.
 Definition ok4 {A} (ls : lexstate) (s : list Z) (r : res (A * list Z * Z * lexstate)) : Prop :=
@@ -119,7 +121,7 @@ Ltac head_scrut t :=
   | _ => t
   end.
 Ltac simp_spec L :=
-  cbv beta iota delta [sf2 sf3 sfs pc3 word_head ok3 ok4 np same_tbl fst snd] in L.
+  cbv beta iota delta [sf2 sf3 sfs pc3 word_head ok3 ok4 np nf same_tbl fst snd] in L.
 (* E : reader args = value  ~>  the reader's fact about that value *)
 Ltac harvest E :=
   lazymatch type of E with
@@ -150,7 +152,7 @@ Ltac rd_start :=
   | |- ?P ?ls ?s ?x => let X := fresh "X" in let H := fresh "H" in remember x as X eqn:H; symmetry in H
   end.
 Ltac rd_end H :=
-  try harvest H; subst; cbv beta iota delta [sf2 sf3 sfs pc3 word_head ok3 ok4 np fst snd same_tbl]; try exact I;
+  try harvest H; subst; cbv beta iota delta [sf2 sf3 sfs pc3 word_head ok3 ok4 np nf fst snd same_tbl]; try exact I;
   repeat match goal with |- match ?x with _ => _ end => destruct x end; try exact I; try contradiction;
   repeat match goal with |- context [match ?x with _ => _ end] => is_var x; destruct x; cbv beta iota in * end;
   repeat match goal with Q : _ /\ _ |- _ => destruct Q end;
